@@ -20,6 +20,83 @@ EXPLANATION = (
 )
 
 
+def _sip_ref(key, msg):
+    """SipHash-2-4 (Aumasson, Bernstein), 64-bit output -- the reference the library's class is compared with"""
+    M = 0xFFFFFFFFFFFFFFFF
+    rotl = lambda x, b: ((x << b) | (x >> (64 - b))) & M
+    k0, k1 = int.from_bytes(key[:8], "little"), int.from_bytes(key[8:], "little")
+    v = [0x736F6D6570736575 ^ k0, 0x646F72616E646F6D ^ k1, 0x6C7967656E657261 ^ k0, 0x7465646279746573 ^ k1]
+
+    def rnd():
+        v[0] = (v[0] + v[1]) & M
+        v[1] = rotl(v[1], 13) ^ v[0]
+        v[0] = rotl(v[0], 32)
+        v[2] = (v[2] + v[3]) & M
+        v[3] = rotl(v[3], 16) ^ v[2]
+        v[0] = (v[0] + v[3]) & M
+        v[3] = rotl(v[3], 21) ^ v[0]
+        v[2] = (v[2] + v[1]) & M
+        v[1] = rotl(v[1], 17) ^ v[2]
+        v[2] = rotl(v[2], 32)
+    full = len(msg) // 8 * 8
+    words = [int.from_bytes(msg[i:i + 8], "little") for i in range(0, full, 8)]
+    words.append(((len(msg) & 0xFF) << 56) | int.from_bytes(msg[full:], "little"))
+    for m in words:
+        v[3] ^= m
+        rnd()
+        rnd()
+        v[0] ^= m
+    v[2] ^= 0xFF
+    for _ in range(4):
+        rnd()
+    return v[0] ^ v[1] ^ v[2] ^ v[3]
+
+
+def _siphash_cells(ctx):
+    """SipHash_2_4 evaluated against the published algorithm: two keys with sixteen different bytes, messages of every length 0..25 (each tail
+    length 0..7 at least three times, 0 to 3 full words) and of 255 / 256 / 257 bytes (the length byte wraps), in one piece and fed through
+    update() in two pieces.  Bounded in the message length; the class handles every full word in one loop and the tail in one statement.  None
+    when the class is outside the evaluator's subset."""
+    import struct
+    from sa.cells import ClassRef, Evaluator, Namespace, Obj, Raised, Undecided
+    one, two = struct.Struct("<Q"), struct.Struct("<QQ")
+    ext = {"_oneQ": Namespace(unpack=one.unpack, unpack_from=lambda b, off=0: one.unpack_from(bytes(b), off), pack=one.pack),
+           "_twoQ": Namespace(unpack=two.unpack, unpack_from=lambda b, off=0: two.unpack_from(bytes(b), off), pack=two.pack)}
+    mod, fn = rl.get(ctx, "siphash:SipHash_2_4.hash")
+    modi, fni = rl.get(ctx, "siphash:SipHash_2_4.__init__")
+    keys = [bytes(range(16)), bytes(range(255, 239, -1))]
+    lens = list(range(0, 26)) + [255, 256, 257]
+    try:
+        for key in keys:
+            for L in lens:
+                msg = bytes((7 * i + 3) & 0xFF for i in range(L))
+                for split in (None, L // 3):
+                    ctx.count("cells")
+                    o = Obj("siphash", "SipHash_2_4", {})
+                    ev = Evaluator(ctx.repo, externals=ext, max_steps=400000)
+                    try:
+                        if split is None:
+                            ev.call("siphash:SipHash_2_4.__init__", [key, msg], self_obj=o)
+                        else:
+                            ev.call("siphash:SipHash_2_4.__init__", [key, msg[:split]], self_obj=o)
+                            Evaluator(ctx.repo, externals=ext, max_steps=400000).call("siphash:SipHash_2_4.update", [msg[split:]], self_obj=o)
+                        r = Evaluator(ctx.repo, externals=ext, max_steps=400000).call("siphash:SipHash_2_4.hash", [], self_obj=o)
+                    except Raised as x:
+                        r = "raises %s" % x.name
+                    if r != _sip_ref(key, msg):
+                        where = "sip-init" if L == 0 and split is None else "sip-final"
+                        what = "of the empty message" if L == 0 else "of a %d-byte message%s" % (L, " fed in two pieces" if split is not None else "")
+                        hint = " (the length byte is (length mod 256) << 56)" if L >= 255 else ""
+                        return [ctx.bad("siphash:SipHash_2_4.hash" if where == "sip-final" else "siphash:SipHash_2_4.__init__",
+                                        "SipHash-2-4 %s differs from the specification: %s instead of %#018x%s" % (what, ("%#018x" % r) if isinstance(r, int) else r, _sip_ref(key, msg), hint),
+                                        fn if where == "sip-final" else fni, mod if where == "sip-final" else modi, key=where)]
+    except Undecided:
+        return None
+    return [ctx.ok("siphash:SipHash_2_4.__init__", "v0..v3 = 'somepseu','dorandom','lygenera','tedbytes' xor k0,k1,k0,k1", fni, modi, key="sip-init"),
+            ctx.ok("siphash:SipHash_2_4.hash", "length byte in bits 56..63, v2 ^= 0xff, 4 finalisation rounds, xor of the four words (equals SipHash-2-4 on %d key / message / "
+                                               "split cells)" % (len(keys) * len(lens) * 2), fn, mod, key="sip-final")]
+
+
 def c18_1(ctx):
     out = []
     for modname in ("compactfilter", "helper"):
@@ -36,6 +113,9 @@ def c18_1(ctx):
         out.append(ctx.ok("helper:murmur3", "c1, c2, n, fmix constants equal MurmurHash3_x86_32", fn, mod, key="murmur-consts"))
     else:
         out.append(ctx.bad("helper:murmur3", "MurmurHash3 constants missing/altered: %s" % sorted(hex(x) for x in need - consts), fn, mod, key="murmur-consts"))
+    ev = _siphash_cells(ctx)
+    if ev is not None:
+        return out + ev
     # siphash initialisation constants "somepseudorandomlygeneratedbytes"
     mod, fn = rl.get(ctx, "siphash:SipHash_2_4.__init__")
     consts = [f.fold(c) for c in ast.walk(fn) if isinstance(c, ast.Constant) and isinstance(c.value, int)]
